@@ -12,6 +12,7 @@ CONSTANTS
   PeriodicFix = TRUE
   EnqAnywhere = FALSE
   Record = TRUE
+  MaxPre = 1
 INVARIANTS TypeOK OnlyLegalRemovals PostInOrderH FirstAcceptInOrderH WaitFollowsRule
 
 CHECK_DEADLOCK FALSE
